@@ -60,8 +60,17 @@ fn run_case(case: &Value, root: &Path) -> Value {
         "ünï" => "bïb",
         _ => "lib",
     };
-    let base: PathBuf = root.join(base_name);
-    let _ = std::fs::remove_dir_all(&base);
+    let base: PathBuf = root.join(if base_kind == "symlink" { "lnk" } else { base_name });
+    let real: PathBuf = root.join("real-lib");
+    if base_kind == "symlink" {
+        // the library is reached through a symbolic link; the editor uses the link's path
+        let _ = std::fs::remove_file(&base);
+        let _ = std::fs::remove_dir_all(&real);
+        std::fs::create_dir_all(&real).unwrap();
+        std::os::unix::fs::symlink(&real, &base).unwrap();
+    } else {
+        let _ = std::fs::remove_dir_all(&base);
+    }
     let tdir = if dir.is_empty() { base.clone() } else { base.join(dir) };
     std::fs::create_dir_all(&tdir).unwrap();
     let target = tdir.join(format!("{}.md", name));
@@ -105,7 +114,12 @@ fn run_case(case: &Value, root: &Path) -> Value {
     let sym = req(&mut c, &mut id, "workspace/symbol", json!({"query":"Target"}));
     let sym_ok = sym.as_ref().and_then(|v| v.as_array()).map(|a| a.iter().any(|s| s["location"]["uri"] == turi.as_str())).unwrap_or(false);
     let exit = c.exit_and_join(Duration::from_secs(10));
-    let _ = std::fs::remove_dir_all(&base);
+    if base_kind == "symlink" {
+        let _ = std::fs::remove_file(&base);
+        let _ = std::fs::remove_dir_all(&real);
+    } else {
+        let _ = std::fs::remove_dir_all(&base);
+    }
     json!({"ev":"Uri","name":case["name"],"dir":dir,"base":base_kind,"file":target.to_string_lossy(),"uri":turi,
            "n0":n0,"n1":n1,"refs_ok":refs_ok,"def_ok":def_ok,"fmt_new":fmt_new,"link_titled":link_titled,"sym_ok":sym_ok,
            "clean_exit": exit == Some(true)})
